@@ -12,6 +12,10 @@ STABLE = ("strings used in key derivation / USERNAME / USERHASH are drawn from a
 
 SIMRULE = ("seeded scheduler over a virtual clock drives the real StunClient: application sends, server answers built by the reference codec (valid, wrongly authenticated, 401/438 challenges, fingerprint faults), loss, duplication (immediate and long after), reordering, delay, timer calls that are exact / early / late by 1 ns..beyond the deadline / spurious, idle jumps, hostile probes (unknown id, request class, garbage, mutated response, indication with an outstanding id, finished id), then a drain phase following the controller contract and post-mortem probes (two valid responses re-injected for every finished transaction, timer call one hour later). Every call is logged with result, pulled events and the hook snapshot before/after; monitors run online. ")
 
+ENUM_T = (" Plus an EXHAUSTIVE small-scope stream: every schedule of 4 (thorough 6) actions over {send, good response to oldest/newest, bad response, timer exact/late/beyond deadline/early, duplicate of the last packet, late response for a finished request} for four fixed client configurations, each followed by the drain phase.")
+ENUM_L = (" Plus an EXHAUSTIVE stream: every sequence of 3 (thorough 5) server behaviours out of 14 {401 plain / cookie+anonymity / [MD5] / [SHA256] / both+anonymity / unsupported / missing nonce, 438 with/without integrity, success authenticated / without integrity / wrong key, error 400 authenticated / without integrity} on both transports, then one more request.")
+ENUM_S = (" Plus an EXHAUSTIVE stream: every sequence of 3 (thorough 5) replies out of 13 {success valid MI / valid SHA256 / both / none / MI corrupted / SHA256 under another password, error valid MI / SHA256, indication valid MI / SHA256 / both / none, run the timers to the final outcome} for 6 short-term client configurations (algorithm unset/MI/SHA256 x transport), then one more request.")
+
 PROPS = {
     "C01": {
         "title": "Encode then decode returns the same message",
@@ -152,9 +156,9 @@ PROPS = {
                  "the history is unambiguous): a second final event, any packet/timer/event naming a finished, unknown or "
                  "indication id, a delivery for an id not awaiting, and (hook) a finished id still in the transaction table or "
                  "the timer heap are violations. Non-trivial = history with >=1 finished request; distinct = hash of the "
-                 "history shape (operations, results, event kinds)."),
+                 "history shape (operations, results, event kinds)." + ENUM_T),
         "assumptions": ["transaction ids drawn by the client from the OS RNG are unique (collision ignored)"],
-        "min_counters": {"requests.finished": 2000, "probe.post-mortem-scheduled": 2000, "final.delivered": 300,
+        "min_counters": {"enumerated.schedules": 40000, "requests.finished": 2000, "probe.post-mortem-scheduled": 2000, "final.delivered": 300,
                          "final.timed-out": 300, "final.retry": 20, "final.protection-violated": 20},
     },
     "C06": {
@@ -167,7 +171,7 @@ PROPS = {
                  "candidate > now; requests with E>now are untouched; <= Rc transmissions; exact integer-nanosecond "
                  "comparison of every pending expiry (hook) and notification. Plus the default schedule 500..39500 ms. "
                  "Configs: RTO 1 ms-3 s incl. learned values, Rm 1-32, Rc 1-10. Non-trivial = history with a retransmission "
-                 "or a final outcome."),
+                 "or a final outcome." + ENUM_T),
         "assumptions": [],
         "min_counters": {"c06.retransmissions": 3000, "c06.deadline-failures": 500, "c06.late-call-skipped-slots": 100,
                          "c06.default-schedule-runs": 16, "c06.requests-with-learned-rto": 50},
@@ -180,7 +184,7 @@ PROPS = {
                  "max(0, E_min - now) exactly; (hook) one heap entry per awaiting request. Bounded liveness: a controller "
                  "that arms one timer per latest notification and calls on_timeout when it fires (arbitrarily late) reaches "
                  "quiescence (nothing in flight, no timer armed) with every request final; each request fails at the first "
-                 "controller call at/after its deadline. Non-trivial = >=2 requests in the history."),
+                 "controller call at/after its deadline. Non-trivial = >=2 requests in the history." + ENUM_T),
         "assumptions": ["'eventually' is restated as bounded progress: finite histories, <= 64+16*requests timer calls in the drain phase"],
         "min_counters": {"c11.notifications-checked": 10000, "c11.quiescence-points": 1000},
     },
@@ -191,7 +195,7 @@ PROPS = {
                  "return MaxOutstandingRequestsReached iff count == limit; a refusal leaves events() empty and the hook "
                  "snapshot identical; indications change nothing; hook cross-check table size == count after every step. "
                  "Limits 0,1,2,3,4,10 in rotation; walks of 300-800 operations hammering the limit. Non-trivial = walk with "
-                 ">=1 request (or limit 0)."),
+                 ">=1 request (or limit 0)." + ENUM_T),
         "assumptions": [],
         "min_counters": {"requests.refused-at-limit": 1000, "requests.finished": 2000, "final.timed-out": 200,
                          "final.delivered": 200, "indications.sent": 200},
@@ -220,7 +224,7 @@ PROPS = {
                  "configured. Oracle B (boundary only): twin runs of the same seeded schedule without and with rejected "
                  "buffers (garbage, unknown-id responses, request class, corrupted unknown-id errors) inserted after random "
                  "steps; every shared step must return the same result and events. Probe-heavy profile. Non-trivial = "
-                 "every history."),
+                 "every history." + ENUM_T),
         "assumptions": [],
         "min_counters": {"c17.snapshots-compared": 20000, "c17.marker-set": 20, "c17.twin-histories": 500,
                          "c17.twin-inserted-rejections": 5000},
@@ -266,9 +270,9 @@ PROPS = {
                  "unreliable => Err, no event, retransmissions continue, final failure ProtectionViolated iff a response of "
                  "that transaction definitely failed authentication, TimedOut iff none did. Left open where the statement is "
                  "silent (indication with both attributes, response with both on reliable transport, buffers the library "
-                 "reports as undecodable). Non-trivial = every conversation."),
+                 "reports as undecodable). Non-trivial = every conversation." + ENUM_S),
         "assumptions": [STABLE],
-        "min_counters": {"c07.outgoing-checked": 10000, "c07.algorithm-learned": 300, "c07.reliable-failing-responses": 200,
+        "min_counters": {"enumerated.reply-sequences": 13000, "c07.outgoing-checked": 10000, "c07.algorithm-learned": 300, "c07.reliable-failing-responses": 200,
                          "c07.unreliable-failing-responses": 500, "cred.timeout-after-failed-auth": 50,
                          "c07.incoming.response:mi-valid:none-agreed": 50, "c07.incoming.response:both:none-agreed": 20,
                          "c07.incoming.indication:mi-valid:sha1-agreed": 10},
@@ -289,9 +293,9 @@ PROPS = {
                  "well-formed 401 without integrity => Retry; 438 with new nonce => Retry and the new nonce is used; success / "
                  "ordinary error delivered only if the expected integrity verifies (must-deliver when it verifies under the key "
                  "the client showed); indications refused. The oracle adopts a challenge only when the client emitted Retry for "
-                 "it. Non-trivial = every conversation."),
+                 "it. Non-trivial = every conversation." + ENUM_L),
         "assumptions": [STABLE, "which supported algorithm is 'chosen' is left to the client (RFC: first supported; library: prefers SHA-256)"],
-        "min_counters": {"c08.challenges-accepted": 2000, "c08.stale-nonce-accepted": 300, "c08.requests.First": 1000,
+        "min_counters": {"enumerated.conversations": 5000, "c08.challenges-accepted": 2000, "c08.stale-nonce-accepted": 300, "c08.requests.First": 1000,
                          "c08.requests.After401": 1000, "c08.requests.After438": 300, "c08.requests.Authenticated": 500,
                          "c08.requests-accepted-by-reference-server": 500, "c08.incoming.success:authenticated": 500,
                          "c08.incoming.success:wrong-integrity": 50, "c08.incoming.success:no-integrity": 50,
@@ -308,7 +312,7 @@ PROPS = {
                  "fingerprints on: every emitted packet ends with a FINGERPRINT carrying the reference CRC; a received response or "
                  "indication whose first FINGERPRINT is missing or wrong (classified from bytes) must give Err, no events, and "
                  "leave its transaction outstanding (hook + later completion); a valid one on a mechanism-less client is "
-                 "delivered. Non-trivial = every message / conversation."),
+                 "delivered. Non-trivial = every message / conversation." + ENUM_T),
         "assumptions": ["a FINGERPRINT with a correct CRC that is not the last attribute is left open (neither missing nor wrong)"],
         "min_counters": {"c10.bit-faults-rejected": 300000, "c10.byte-faults-rejected": 200000, "c10.untampered-accepted": 1000,
                          "c10.emitted-fingerprint-checked": 10000, "c10.bad-or-missing-fingerprint-received": 1000,
@@ -325,7 +329,7 @@ PROPS = {
                  "reference encoding, minus the types the mechanism owns) then only mechanism-owned attributes each at most once, "
                  "then <=1 MI, <=1 SHA256, <=1 FINGERPRINT in that order at the end, each verifying (mechanism key; the "
                  "application's own key without mechanism; CRC); retransmissions byte-identical (timer monitor). Non-trivial = "
-                 "every history."),
+                 "every history." + ENUM_S + ENUM_L),
         "assumptions": [STABLE, "which long-term credential attributes are required in which state is C08's business"],
         "min_counters": {"output.packets-checked": 20000, "c13.application-lists-checked": 15000, "c06.retransmissions": 2000,
                          "c13.mech.none": 100, "c13.mech.short-term": 100, "c13.mech.long-term": 100},
